@@ -2,6 +2,7 @@ package rules
 
 import (
 	"fmt"
+	"strings"
 	"go/token"
 	"go/types"
 
@@ -184,7 +185,59 @@ type fact struct {
 func (b *boundsCtx) factsAt(blk *ssa.BasicBlock) []fact {
 	var out []fact
 	for _, g := range an.GuardingEdges(blk) {
-		out = append(out, b.edgeFacts(g.From, g.Succ)...)
+		if g.From != nil && !g.Synthetic() {
+			out = append(out, b.edgeFacts(g.From, g.Succ)...)
+		}
+		// the edge may test the verdict of a helper (`limit, ok := parse(n); if ok …`): the comparisons the helper made on
+		// the way to that verdict hold too, with the values it returns standing for the results extracted here
+		for _, fe := range an.ImpliedHelperEdges(g) {
+			hb := &boundsCtx{c: b.c, fn: fe.Callee}
+			hf := hb.edgeFacts(fe.From, fe.Succ)
+			if len(hf) == 0 {
+				continue
+			}
+			// helper value returned at result k (the same on all returns consistent with the verdict)  ->  Extract #k here
+			subst := map[ssa.Value]ssa.Value{}
+			if fe.Call.Referrers() != nil {
+				for _, ref := range *fe.Call.Referrers() {
+					ex, ok := ref.(*ssa.Extract)
+					if !ok {
+						continue
+					}
+					var rv ssa.Value
+					same := true
+					for _, hr := range an.HelperReturns(ex, nil) {
+						if _, isC := hr.Val.(*ssa.Const); isC {
+							continue // e.g. `return 0, false`: not a return with the accepted verdict's value
+						}
+						v := stripInt(hr.Val)
+						if rv != nil && rv != v {
+							same = false
+						}
+						rv = v
+					}
+					if same && rv != nil {
+						subst[rv] = ex
+					}
+				}
+			}
+			for _, f := range hf {
+				ok := true
+				for _, sp := range []*sym{&f.a, &f.b} {
+					if sp.kind == "zero" {
+						continue
+					}
+					if nv, has := subst[sp.v]; has && sp.kind == "val" {
+						sp.v = nv
+					} else {
+						ok = false
+					}
+				}
+				if ok {
+					out = append(out, f)
+				}
+			}
+		}
 	}
 	return out
 }
@@ -311,6 +364,13 @@ func (b *boundsCtx) requestDerived(v ssa.Value, seen map[ssa.Value]bool, depth i
 	case *ssa.Extract:
 		if call, ok := x.Tuple.(*ssa.Call); ok && x.Index == 0 {
 			if an.IsFunc(call, "strconv", "Atoi") || an.IsFunc(call, "strconv", "ParseInt") || an.IsFunc(call, "strconv", "ParseUint") {
+				return true
+			}
+		}
+		// a result of a helper of this module that returns a parsed integer
+		for _, hr := range an.HelperReturns(x, func(h *ssa.Function) bool { return strings.HasPrefix(core.FuncPkgPath(h), b.c.P.Module) }) {
+			hb := &boundsCtx{c: b.c, fn: hr.Callee}
+			if hb.requestDerived(hr.Val, map[ssa.Value]bool{}, depth+1) {
 				return true
 			}
 		}
